@@ -108,6 +108,7 @@ def worker_main() -> int:
         rec["ev"], rec["order"] = {}, []
         cls, msg, site = "", "", ""
         t0, w0 = time.process_time(), time.perf_counter()
+        m0 = resource.getrusage(resource.RUSAGE_SELF).ru_maxrss      # peak resident set of this worker so far (KiB)
         rec["on"] = True
         cpp = ""
         try:
@@ -144,6 +145,7 @@ def worker_main() -> int:
             os.environ.clear(); os.environ.update(env0); os.chdir(cwd0); sys.setrecursionlimit(rl0)
         out.write(json.dumps({"id": job["id"], "outcome": outcome, "cls": cls, "msg": msg, "site": site, "cpu_ms": int(cpu * 1000),
                               "wall_ms": int(wall * 1000), "canary": canary, "snap_same": same, "snap_what": what, "env_same": envsame,
+                              "rss_grow_mb": max(0, resource.getrusage(resource.RUSAGE_SELF).ru_maxrss - m0) // 1024,
                               "audit": [[k[0], k[1], k[2], rec["ev"][k]] for k in rec["order"]]}) + "\n")
         out.flush()
     return 0
@@ -394,6 +396,10 @@ PAYLOADS = [
     ("pow-tower", "huge", "9**9**9"),
     ("pow-tower-10", "huge", "10**10**10"),
     ("string-repeat", "huge", "'a'*10**9"),
+    ("string-repeat-mid-sized-twice", "huge", "('=' * 25000) * 25000"),
+    ("string-repeat-mid-sized-count-first", "huge", "25000 * ('=' * 25000)"),
+    ("string-repeat-near-cap", "huge", "('ab' * 16000) * 32000"),
+    ("list-repeat-mid-sized-twice", "huge", "([0] * 25000) * 25000"),
     ("shift-huge", "huge", "1<<10**9"),
     ("list-repeat", "huge", "[0]*10**9"),
     ("float-pow-overflow", "huge", "2.0**100000"),
